@@ -1110,6 +1110,18 @@ func (e *Editor) ApplyPlant(ws *Workspace) *Plant {
 	return nil
 }
 
+// ApplyPlantNamed applies the named planting operator family, or returns nil if it has no applicable site.
+func (e *Editor) ApplyPlantNamed(ws *Workspace, name string) *Plant {
+	for _, op := range PlantOps {
+		if op.Name == name {
+			if p, ok := op.Apply(e, ws); ok {
+				return p
+			}
+		}
+	}
+	return nil
+}
+
 // ---------------------------------------------------------------------------------------------
 // lint rule -> category membership per config version (reference copy of the documented tables)
 
